@@ -16,6 +16,8 @@ package kvcache
 //@ spec func inseq(xs []int, s int) bool = exists k int :: 0 <= k && k < len(xs) && xs[k] == s
 //@ spec func trg(v int) int := v
 //@ spec func fid(x float32) int
+//@ spec func wcell(z int) int
+//@ spec func wseq(z int) int
 //@ spec func wfr(mn int, mx int, n int) bool = (mn == 9223372036854775807 && mx == 0) || (0 <= mn && mn <= mx && mx < n)
 
 // ---- trusted library contracts ----
@@ -141,6 +143,8 @@ package kvcache
 //@   loop 2 invariant forall k int :: i * length <= k && k < i * length + (j - c.curCellRange.min) ==> fid(mask[k]) == ite(!inseq(c.cells[k-i*length+c.curCellRange.min].sequences, c.curSequences[i]) || (enabled && c.cells[k-i*length+c.curCellRange.min].pos > c.curPositions[i]) || c.cells[k-i*length+c.curCellRange.min].pos < c.curPositions[i] - c.windowSize, fid(float32(math.Inf(-1))), fid(0.0))
 //@   loop 3 invariant forall k int :: c.curBatchSize * length <= k && k < i ==> fid(mask[k]) == fid(float32(math.Inf(-1)))
 //@   assert-at call FromFloatSlice #1 : forall k int :: c.curBatchSize * length <= k && k < len(mask) ==> fid(mask[k]) == fid(float32(math.Inf(-1)))
+// Shape of the mask tensor: `length` columns (one per exposed cache row, the count Get uses for the K/V views) by batchSize rows, built from `mask`
+//@   assert-at call FromFloatSlice #1 : arg1 == mask && len(arg2) == 2 && arg2[0] == length && arg2[1] == batchSize
 // NOT DECIDED (drafted, the solver does not settle the two-variable nonlinear-index quantifiers
 // within the budget, and the zero value of a fresh []float32 is not the term of the literal 0.0):
 //   at the call of FromFloatSlice, forall a < curBatchSize, min <= b <= max:
@@ -222,6 +226,9 @@ package kvcache
 //@   loop 1 invariant forall j int :: 0 <= j && j <= rangeindex ==> c.cells[j].pos == ite(old(inseq(c.cells[j].sequences, seq)) && old(c.cells[j].pos) >= endIndex, old(c.cells[j].pos) + offset, old(c.cells[j].pos))
 //@   loop 1 invariant forall j int :: 0 <= j && j <= rangeindex && inseq(c.cells[j].sequences, seq) ==> seqRange.min <= j && j <= seqRange.max
 //@   loop 1 invariant forall j int :: 0 <= j && j < len(c.cells) ==> blk(c.cells[j].sequences) == old(blk(c.cells[j].sequences)) && (c.cells[j].sequences == nil <==> old(c.cells[j].sequences == nil))
+// Removing up to the end (endIndex == MaxInt32) never fails (what WrapperCache.StartForward's unwinding and the runner's
+// fallback `Remove(seq, 0, MaxInt32)` rely on): no cell is renumbered, so neither the shared-cell error nor shift can occur.
+//@   ensures endIndex == 2147483647 && (forall j int :: 0 <= j && j < len(c.cells) && old(inseq(c.cells[j].sequences, seq)) ==> old(c.cells[j].pos) < 2147483647) ==> result == nil
 
 // ---- CopyPrefix: afterwards dstSeq owns exactly the cells of srcSeq with pos < len, positions
 // ---- are untouched, the new range of dstSeq covers its cells (R for dstSeq). Loop 1 scans the cells.
@@ -381,3 +388,16 @@ package kvcache
 //@   ensures forall v int :: has(c.cellRanges, v) ==> wfr(c.cellRanges[v].min, c.cellRanges[v].max, len(c.cells))
 //@   assert-at store sequences #1 : len(stored) == 1 && stored[0] == batch.Sequences[i] && pos == batch.Positions[i]
 //@   requires forall j int :: 0 <= j && j < len(c.cells) ==> blk(batch.Sequences) != blk(c.cells[j].sequences)   -- ownership (O1): the caller's Sequences slice shares no backing array with a cell's slice (precondition of updateSlidingWindow, carried to the caller)
+// The metadata loop touches nothing else ("nothing from removed ranges ... nothing missing" for the entries already cached):
+// for an ARBITRARY cell wcell(0) outside the run being filled and an ARBITRARY sequence wseq(0) (uninterpreted constants, so the
+// facts hold for all of them), position and membership are what they were when placement started (after eviction/defrag),
+// and the range of a sequence that does not occur in the batch is what it was. ghost_w*: snapshot taken before the loop.
+//@   ghost-at after call newRange #1 : ghost_wpos := c.cells[wcell(0)].pos
+//@   ghost-at after call newRange #1 : ghost_win := ite(inseq(c.cells[wcell(0)].sequences, wseq(0)), 1, 0)
+//@   ghost-at after call newRange #1 : ghost_rhas := ite(has(c.cellRanges, wseq(0)), 1, 0)
+//@   ghost-at after call newRange #1 : ghost_rmin := c.cellRanges[wseq(0)].min
+//@   ghost-at after call newRange #1 : ghost_rmax := c.cellRanges[wseq(0)].max
+//@   loop 1 invariant 0 <= wcell(0) && wcell(0) < len(c.cells) && (wcell(0) < c.curLoc || c.curLoc + len(batch.Positions) <= wcell(0)) ==> c.cells[wcell(0)].pos == ghost_wpos && (inseq(c.cells[wcell(0)].sequences, wseq(0)) <==> ghost_win == 1)
+//@   loop 1 invariant (forall k int :: 0 <= k && k <= rangeindex ==> batch.Sequences[k] != wseq(0)) ==> (has(c.cellRanges, wseq(0)) <==> ghost_rhas == 1) && c.cellRanges[wseq(0)].min == ghost_rmin && c.cellRanges[wseq(0)].max == ghost_rmax
+//@   assert-at call buildMask #1 : !reserve && 0 <= wcell(0) && wcell(0) < len(c.cells) && (wcell(0) < c.curLoc || c.curLoc + len(batch.Positions) <= wcell(0)) ==> c.cells[wcell(0)].pos == ghost_wpos && (inseq(c.cells[wcell(0)].sequences, wseq(0)) <==> ghost_win == 1)
+//@   assert-at call buildMask #1 : !reserve && (forall k int :: 0 <= k && k < len(batch.Positions) ==> batch.Sequences[k] != wseq(0)) ==> (has(c.cellRanges, wseq(0)) <==> ghost_rhas == 1) && c.cellRanges[wseq(0)].min == ghost_rmin && c.cellRanges[wseq(0)].max == ghost_rmax
